@@ -723,7 +723,7 @@ func c02JSONValidSig(f c02Fields) bool {
 
 func c02JSON(st *c02Stats, tx *Transaction, f c02Fields, env []byte) error {
 	if !c02JSONValidSig(f) {
-		st.add(fmt.Sprintf("type%d:json:skipped-invalid-sig", f.Typ))
+		st.add(fmt.Sprintf("type%d:json:not-admissible", f.Typ))
 		return nil
 	}
 	js, err := json.Marshal(tx)
